@@ -72,6 +72,7 @@ func h4Main(env *Env, c *H4Cfg, sh *h4Shared) {
 			env.Log("stop-returned", int64(sh.executing), 0, "")
 		}
 	}
+	env.Sim.Quiesce() // liveness is judged after faults (adversarial schedules and select orders) have stopped
 	time.Sleep(time.Duration(c.FlushNs))
 	sh.leftover = leftoverF1(env.PreIDs)
 	sh.finished = true
